@@ -90,3 +90,11 @@ package lineintersector
 //@   ensures [count] len(res.intersection) == res.intersectionType
 //@   ensures [endpoint] res.intersectionType == 1 && touches(line1Start[0], line1Start[1], line1End[0], line1End[1], line2Start[0], line2Start[1], line2End[0], line2End[1]) ==> onSeg(res.intersection[0][0], res.intersection[0][1], line1Start[0], line1Start[1], line1End[0], line1End[1]) && onSeg(res.intersection[0][0], res.intersection[0][1], line2Start[0], line2Start[1], line2End[0], line2End[1])
 //@   modifies nothing
+
+// ---- the non-robust strategy: agreement on whether the segments intersect at all (over the reals)
+
+//@ func rParameter
+//@   floats real
+//@   requires len(p1) >= 2 && len(p2) >= 2 && len(p) >= 2 && !(p1[0] == p2[0] && p1[1] == p2[1])
+//@   ensures res == (abs(p2[0] - p1[0]) > abs(p2[1] - p1[1]) ? (p[0] - p1[0]) / (p2[0] - p1[0]) : (p[1] - p1[1]) / (p2[1] - p1[1]))
+//@   modifies nothing
